@@ -75,6 +75,54 @@ def minmax_fold(ev, ctor, t):
     return ok, detail
 
 
+def avg_fold(ev, t):
+    """avg = (sum of all arguments, seeded 0) / count, in the evaluator's own arithmetic"""
+    ok, detail = False, "UNRECOGNISED: " + T.show(t)[:300]
+    if ev == "eval_f64":
+        ok = M(("seq", ("let", "?m", ("lit", "0.0", "f64")), ("for", ("bind", "?x"), ITER, ("setop", "add", "f64", ("var", "?m"), ("ev", ("var", "?x")))), ("Ok", ("op", "div", "f64", ("var", "?m"), ("cast", "usize", "f64", LEN)))), t) is not None
+    elif ev == "eval_number":
+        ok = M(("seq", ("let", "?m", ("lit", "0.0", "f64")), ("for", ("bind", "?x"), ITER, ("setop", "add", "f64", ("var", "?m"), as_f64(("ev", ("var", "?x")), "1"))), ("Ok", ("call", "<Number as convert::From>::from", ("op", "div", "f64", ("var", "?m"), ("cast", "usize", "f64", LEN))))), t) is not None
+    elif ev == "eval_i64":
+        ok = M(("seq", ("let", "?m", ("lit", "0", "i64")), ("for", ("bind", "?x"), ITER, ("set", ("var", "?m"), ("try", ("lift", ("call", "i64::checked_add", ("var", "?m"), ("ev", ("var", "?x"))))))), ("lift", ("call", "i64::checked_div", ("var", "?m"), ("cast", "usize", "i64", LEN)))), t) is not None
+    elif ev == "eval_decimal":
+        ok = M(("seq", ("let", "?m", ("const", "Decimal::ZERO", "_")), ("for", ("bind", "?x"), ITER, ("set", ("var", "?m"), ("try", ("lift", ("call", "Decimal::checked_add", ("var", "?m"), ("ev", ("var", "?x"))))))), ("lift", ("call", "Decimal::checked_div", ("var", "?m"), ("call", "Decimal::new", ("cast", "usize", "i64", LEN), ("lit", "0", "u32"))))), t) is not None
+    return ok, ("sum seeded 0, divided by len" if ok else detail)
+
+
+def med_fold(ev, t):
+    """med = collect, sort ascending with a total comparator, middle element / mean of the two middle elements"""
+    ok, detail = False, "UNRECOGNISED: " + T.show(t)[:400]
+    e = M(("seq", ("let", "?v", ("call", "Vec::new")), ("for", ("bind", "?x"), ITER, ("call", "Vec::push", ("var", "?v"), ("ev", ("var", "?x")))), ("call", "[T]::sort_by", ("var", "?v"), ("lambda", (("bind", "?a"), ("bind", "?b")), "?cmp")),
+           ("if", ("op", "eq", "usize", ("op", "rem", "usize", ("call", "Vec::len", ("var", "?v")), ("lit", "2", "usize")), ("lit", "0", "usize")), "?even", "?odd")), t)
+    if e is not None:
+        V = ("var", e["?v"])
+        HALF = ("op", "shr", "usize", ("call", "Vec::len", V), ("lit", "1", "i32"))
+        vt = None
+        for s in subterms(t):
+            if isinstance(s, tuple) and len(s) == 4 and s[0] == "call" and isinstance(s[1], str) and s[1].endswith("ops::Index>::index"):
+                vt = s[1]
+        HI = ("call", vt, V, HALF)
+        LO = ("call", vt, V, ("op", "sub", "usize", HALF, ("lit", "1", "usize")))
+        A, B = ("var", e["?a"]), ("var", e["?b"])
+        cmp_ = e["?cmp"]
+        if ev == "eval_f64":
+            okc = cmp_ == ("call", "f64::total_cmp", A, B)
+            okeven = e["?even"] in (("Ok", ("op", "div", "f64", ("op", "add", "f64", HI, LO), ("lit", "2.0", "f64"))), ("Ok", ("op", "div", "f64", ("op", "add", "f64", LO, HI), ("lit", "2.0", "f64"))))
+        elif ev == "eval_i64":
+            okc = cmp_ in (("call", "Option::unwrap", ("call", "<i64 as cmp::PartialOrd>::partial_cmp", A, B)), ("call", "<i64 as cmp::Ord>::cmp", A, B))
+            okeven = M(("lift", ("bindopt", ("call", "i64::checked_add", HI, LO), ("bind", "?s"), ("call", "i64::checked_div", ("var", "?s"), ("lit", "2", "i64")))), e["?even"]) is not None
+        elif ev == "eval_decimal":
+            okc = cmp_ in (("call", "Option::unwrap", ("call", "<Decimal as cmp::PartialOrd>::partial_cmp", A, B)), ("call", "<Decimal as cmp::Ord>::cmp", A, B))
+            okeven = M(("lift", ("bindopt", ("call", "Decimal::checked_add", HI, LO), ("bind", "?s"), ("call", "Decimal::checked_div", ("var", "?s"), ("call", "Decimal::new", ("lit", "2", "i64"), ("lit", "0", "u32"))))), e["?even"]) is not None
+        else:
+            okc = M(("call", "f64::total_cmp", as_f64(A, "1"), as_f64(B, "2")), cmp_) is not None
+            okeven = M(("Ok", ("call", "<Number as convert::From>::from", ("op", "div", "f64", ("op", "add", "f64", as_f64(HI, "3"), as_f64(LO, "4")), ("lit", "2.0", "f64")))), e["?even"]) is not None
+        okodd = e["?odd"] == ("Ok", HI)
+        ok = okc and okeven and okodd
+        detail = "comparator %s; even: %s; odd: %s" % ("ascending total order" if okc else "NOT an ascending total order on (a, b): " + T.show(cmp_)[:100], "mean of v[len/2] and v[len/2-1]" if okeven else "NOT the mean of the two middle values: " + T.show(e["?even"])[:160], "v[len/2]" if okodd else "NOT v[len/2]")
+    return ok, detail
+
+
 def main(tier):
     run, F, models = setup(PID, tier, LEVEL)
     run.trusted = ["min/max of the value type are commutative, associative, with the stated identity; f64::min/max ignore no finite argument", "sort with a total ascending comparator sorts",
@@ -106,46 +154,10 @@ def main(tier):
                 run.ob(ok, "fold|" + key, "C11 %s is a fold with the %s step seeded with its identity (or the first element); one argument: its value" % (ctor.lower(), "minimum" if ctor == "Min" else "maximum"), where_, detail,
                        sample={"evaluator": ev, "aggregate": ctor, "schema": detail[:120]})
             elif ctor == "Avg":
-                ok, detail = False, "UNRECOGNISED: " + T.show(t)[:300]
-                if ev == "eval_f64":
-                    ok = M(("seq", ("let", "?m", ("lit", "0.0", "f64")), ("for", ("bind", "?x"), ITER, ("setop", "add", "f64", ("var", "?m"), ("ev", ("var", "?x")))), ("Ok", ("op", "div", "f64", ("var", "?m"), ("cast", "usize", "f64", LEN)))), t) is not None
-                elif ev == "eval_number":
-                    ok = M(("seq", ("let", "?m", ("lit", "0.0", "f64")), ("for", ("bind", "?x"), ITER, ("setop", "add", "f64", ("var", "?m"), as_f64(("ev", ("var", "?x")), "1"))), ("Ok", ("call", "<Number as convert::From>::from", ("op", "div", "f64", ("var", "?m"), ("cast", "usize", "f64", LEN))))), t) is not None
-                elif ev == "eval_i64":
-                    ok = M(("seq", ("let", "?m", ("lit", "0", "i64")), ("for", ("bind", "?x"), ITER, ("set", ("var", "?m"), ("try", ("lift", ("call", "i64::checked_add", ("var", "?m"), ("ev", ("var", "?x"))))))), ("lift", ("call", "i64::checked_div", ("var", "?m"), ("cast", "usize", "i64", LEN)))), t) is not None
-                elif ev == "eval_decimal":
-                    ok = M(("seq", ("let", "?m", ("const", "Decimal::ZERO", "_")), ("for", ("bind", "?x"), ITER, ("set", ("var", "?m"), ("try", ("lift", ("call", "Decimal::checked_add", ("var", "?m"), ("ev", ("var", "?x"))))))), ("lift", ("call", "Decimal::checked_div", ("var", "?m"), ("call", "Decimal::new", ("cast", "usize", "i64", LEN), ("lit", "0", "u32"))))), t) is not None
+                ok, detail = avg_fold(ev, t)
                 run.ob(ok, "fold|" + key, "C11 avg is (sum of all arguments) / (number of arguments), seeded with 0", where_, "sum seeded 0, divided by len" if ok else detail, sample={"evaluator": ev, "aggregate": "Avg"})
             elif ctor == "Med":
-                ok, detail = False, "UNRECOGNISED: " + T.show(t)[:400]
-                e = M(("seq", ("let", "?v", ("call", "Vec::new")), ("for", ("bind", "?x"), ITER, ("call", "Vec::push", ("var", "?v"), ("ev", ("var", "?x")))), ("call", "[T]::sort_by", ("var", "?v"), ("lambda", (("bind", "?a"), ("bind", "?b")), "?cmp")),
-                       ("if", ("op", "eq", "usize", ("op", "rem", "usize", ("call", "Vec::len", ("var", "?v")), ("lit", "2", "usize")), ("lit", "0", "usize")), "?even", "?odd")), t)
-                if e is not None:
-                    V = ("var", e["?v"])
-                    HALF = ("op", "shr", "usize", ("call", "Vec::len", V), ("lit", "1", "i32"))
-                    vt = None
-                    for s in subterms(t):
-                        if isinstance(s, tuple) and len(s) == 4 and s[0] == "call" and isinstance(s[1], str) and s[1].endswith("ops::Index>::index"):
-                            vt = s[1]
-                    HI = ("call", vt, V, HALF)
-                    LO = ("call", vt, V, ("op", "sub", "usize", HALF, ("lit", "1", "usize")))
-                    A, B = ("var", e["?a"]), ("var", e["?b"])
-                    cmp_ = e["?cmp"]
-                    if ev == "eval_f64":
-                        okc = cmp_ == ("call", "f64::total_cmp", A, B)
-                        okeven = e["?even"] in (("Ok", ("op", "div", "f64", ("op", "add", "f64", HI, LO), ("lit", "2.0", "f64"))), ("Ok", ("op", "div", "f64", ("op", "add", "f64", LO, HI), ("lit", "2.0", "f64"))))
-                    elif ev == "eval_i64":
-                        okc = cmp_ in (("call", "Option::unwrap", ("call", "<i64 as cmp::PartialOrd>::partial_cmp", A, B)), ("call", "<i64 as cmp::Ord>::cmp", A, B))
-                        okeven = M(("lift", ("bindopt", ("call", "i64::checked_add", HI, LO), ("bind", "?s"), ("call", "i64::checked_div", ("var", "?s"), ("lit", "2", "i64")))), e["?even"]) is not None
-                    elif ev == "eval_decimal":
-                        okc = cmp_ in (("call", "Option::unwrap", ("call", "<Decimal as cmp::PartialOrd>::partial_cmp", A, B)), ("call", "<Decimal as cmp::Ord>::cmp", A, B))
-                        okeven = M(("lift", ("bindopt", ("call", "Decimal::checked_add", HI, LO), ("bind", "?s"), ("call", "Decimal::checked_div", ("var", "?s"), ("call", "Decimal::new", ("lit", "2", "i64"), ("lit", "0", "u32"))))), e["?even"]) is not None
-                    else:
-                        okc = M(("call", "f64::total_cmp", as_f64(A, "1"), as_f64(B, "2")), cmp_) is not None
-                        okeven = M(("Ok", ("call", "<Number as convert::From>::from", ("op", "div", "f64", ("op", "add", "f64", as_f64(HI, "3"), as_f64(LO, "4")), ("lit", "2.0", "f64")))), e["?even"]) is not None
-                    okodd = e["?odd"] == ("Ok", HI)
-                    ok = okc and okeven and okodd
-                    detail = "comparator %s; even: %s; odd: %s" % ("ascending total order" if okc else "NOT an ascending total order on (a, b): " + T.show(cmp_)[:100], "mean of v[len/2] and v[len/2-1]" if okeven else "NOT the mean of the two middle values: " + T.show(e["?even"])[:160], "v[len/2]" if okodd else "NOT v[len/2]")
+                ok, detail = med_fold(ev, t)
                 run.ob(ok, "fold|" + key, "C11 med: collect, sort ascending with a total comparator, middle element / mean of the two middle elements", where_, detail, sample={"evaluator": ev, "aggregate": "Med", "schema": detail[:140]})
             elif ctor in ("Gcd", "Lcm"):
                 helper = "Ast.gcd" if ctor == "Gcd" else "Ast.lcm"
